@@ -74,7 +74,7 @@ BOUNDS = {
     "quick": {
         "res": "all subsets of <=2 of the 8 binding sites x {plain, builtin} name x 22 read sites x styles {value, or-default, call} (the 7 called-from-a-closure sites: or-default and call, their controls or-default only) x strict on/off; "
                "+ re-assignment variant for every subset holding a body assignment",
-        "stmt": "48 statement forms x placement {body, top-level def} x context {r, r+b, neither} x strict on/off",
+        "stmt": "49 statement forms x placement {body, top-level def} x context {r, r+b, neither} x strict on/off",
         "reread": "16 expression binders x pieces {block later statement, block same statement, ${} expression, control line, tag attribute} x read "
                   "{after, before} + 23 statement binders x {after, before}; x container {body, top-level def} x name {present, absent} x strict on/off",
         "reserved": "4 names x 6 entry points x 3 enable_loop configurations; 4 names x 15 assignment forms x 3 scopes x 3 configurations",
@@ -90,7 +90,7 @@ BOUNDS = {
     "thorough": {
         "res": "all 256 subsets of the 8 binding sites x {plain, builtin} x 22 read sites x 3 styles x strict on/off x binding statement "
                "{before, after} the read for body/enclosing assignments x re-assignment variant",
-        "stmt": "48 statement forms x placement {body, top-level def, nested def, anonymous block, call body} x context {r, r+b, neither} x strict on/off",
+        "stmt": "49 statement forms x placement {body, top-level def, nested def, anonymous block, call body} x context {r, r+b, neither} x strict on/off",
         "reread": "as quick x container {body, top-level def, nested def, anonymous block, call body}",
         "reserved": "as quick + 5 scopes",
         "kwargs": "as quick",
@@ -421,6 +421,7 @@ STMT_FORMS = [
     ("with-as.tuple", "with cm(({r}, 1)) as ({b}, zq):\n    pass", []),
     ("import", "import {mod}", []),
     ("import.dotted", "import {mod}.path", []),
+    ("import.dotted3", "import xml.sax.saxutils", ["sh(xml.sax.saxutils.escape('<'))"]),
     ("import.as", "import {mod}.path as {b}", []),
     ("from-import", "from {mod}.path import sep as {b}", []),
     ("from-import.plain", "from {mod}.path import sep\n{b} = sep + {r}", []),
@@ -462,6 +463,8 @@ def build_stmt(al, p):
     mod = "os"
     if label in ("import", "import.dotted"):
         b = mod  # the name an `import a.b` binds is the top package
+    if label == "import.dotted3":
+        b = "xml"  # ... also for three components
     fmt = {"b": b, "r": r, "mod": mod}
     code = form[1].format(**fmt)
     uses = [u.format(**fmt) for u in form[2]]
@@ -717,7 +720,7 @@ def _stmt_symptom(al, p, exp, obs):
     """footprint of a statement-form failure: which kind of name a NameError complains about, else the two result classes"""
     if obs[0] == "exc" and obs[1] == "NameError":
         q = _quoted(obs[2])
-        b = "os" if p["form"] in ("import", "import.dotted") else al.name
+        b = "os" if p["form"] in ("import", "import.dotted") else ("xml" if p["form"] == "import.dotted3" else al.name)
         if q and q[0] == b:
             role = "bound-name"
         elif q and q[0] in (al.name2, al.name2 + "base", "ident"):
